@@ -1,5 +1,6 @@
 import DymVerif.Driver.Common
 import DymVerif.Model.KeysX
+import DymVerif.Model.KeysIds
 import DymVerif.Gen.Keys
 /-! Driver ops of the second C19 extension: rollapp-id grammar, x/rollapp store keys (through the
     regenerated translations), '/'-separated scans. -/
@@ -56,6 +57,14 @@ def step (f : List String) : Option String :=
   | ["xssi", r, "|", r', i] => some (toString (isPrefix (hex! r ++ [sep]) (Gen.Keys.stateInfoKey (hex! r') (nat! i))))
   | ["xssiord", r, i, i'] => some (cmp (Gen.Keys.stateInfoKey (hex! r) (nat! i)) (Gen.Keys.stateInfoKey (hex! r) (nat! i')))
   | ["xsapp", r, "|", r', n] => some (toString (isPrefix (Gen.Keys.rollappAppKeyPrefix (hex! r)) (Gen.Keys.appKey (hex! r') (nat! n))))
+  | ["doid", k, sha] => some (toHexD (demandOrderId (fun _ => hex! sha) (hex! k)))
+  | ["b64nc", text, k] =>
+      -- a (possibly non-canonical) base64 text against the key it was derived from; vb = what
+      -- MsgFinalizePacketByPacketKey.ValidateBasic checks of the packet key (non-empty, decodes)
+      let t := hex! text
+      some (match Gen.Keys.decodePacketKey t with
+        | some b => s!"ok {toHexD b} {decide (b = hex! k)} vb={!t.isEmpty}"
+        | none => "err vb=false")
   | _ => none
 
 end DymVerif.Driver.C19X
